@@ -161,3 +161,96 @@ pub fn rewrite_comment(
 ) -> Option<String> {
     crate::comment::rewrite_comment(orig, block_style, shape(s), config).ok()
 }
+
+/// `itemize_list(...)` collected, over a source text given as a string: `items` are the
+/// `(lo, hi, rewritten item)` of the list elements as byte offsets into `src` (`None` is a
+/// failed rewrite), `prev_span_end` / `next_span_start` the offsets the caller passes.
+#[allow(clippy::too_many_arguments)]
+pub fn itemize(
+    src: &str,
+    items: &[(usize, usize, Option<String>)],
+    terminator: &str,
+    separator: &str,
+    prev_span_end: usize,
+    next_span_start: usize,
+    leave_last: bool,
+) -> Vec<Item> {
+    use std::sync::Arc;
+
+    use rustc_span::BytePos;
+
+    use crate::visitor::SnippetProvider;
+
+    rustc_span::create_session_if_not_set_then(rustc_span::edition::Edition::Edition2021, |_| {
+        let provider = SnippetProvider::new(
+            BytePos(0),
+            BytePos(src.len() as u32),
+            Arc::new(src.to_owned()),
+        );
+        crate::lists::itemize_list(
+            &provider,
+            items.iter(),
+            terminator,
+            separator,
+            |x| BytePos(x.0 as u32),
+            |x| BytePos(x.1 as u32),
+            |x| match x.2 {
+                Some(ref s) => Ok(s.clone()),
+                None => Err(RewriteError::Unknown),
+            },
+            BytePos(prev_span_end as u32),
+            BytePos(next_span_start as u32),
+            leave_last,
+        )
+        .map(|x| Item {
+            pre_comment: x.pre_comment,
+            pre_comment_style: match x.pre_comment_style {
+                ListItemCommentStyle::SameLine => 0,
+                ListItemCommentStyle::DifferentLine => 1,
+                ListItemCommentStyle::None => 2,
+            },
+            item: x.item.ok(),
+            post_comment: x.post_comment,
+            new_lines: x.new_lines,
+        })
+        .collect()
+    })
+}
+
+/// `get_comment_end(post_snippet, separator, terminator, is_last)`.
+pub fn get_comment_end(
+    post_snippet: &str,
+    separator: &str,
+    terminator: &str,
+    is_last: bool,
+) -> usize {
+    crate::lists::get_comment_end(post_snippet, separator, terminator, is_last)
+}
+
+/// `extract_post_comment(post_snippet, comment_end, separator, is_last)`.
+pub fn extract_post_comment(
+    post_snippet: &str,
+    comment_end: usize,
+    separator: &str,
+    is_last: bool,
+) -> Option<String> {
+    crate::lists::extract_post_comment(post_snippet, comment_end, separator, is_last)
+}
+
+/// `extract_pre_comment(pre_snippet)`: the comment and its style (0, 1, 2 as above).
+pub fn extract_pre_comment(pre_snippet: &str) -> (Option<String>, u8) {
+    let (c, s) = crate::lists::extract_pre_comment(pre_snippet);
+    (
+        c,
+        match s {
+            ListItemCommentStyle::SameLine => 0,
+            ListItemCommentStyle::DifferentLine => 1,
+            ListItemCommentStyle::None => 2,
+        },
+    )
+}
+
+/// `has_extra_newline(post_snippet, comment_end)`.
+pub fn has_extra_newline(post_snippet: &str, comment_end: usize) -> bool {
+    crate::lists::has_extra_newline(post_snippet, comment_end)
+}
